@@ -380,6 +380,7 @@ func checkC08(p *Prog, r *Report) {
 		aolRules(p, r, "C08", func(tag string) bool { return tag == "genesis" || tag == "family" })
 	}
 
+	checkStoredTypeValidationNotStricter(p, r, kp, "x/aol/types", []string{"Owner", "Topic", "Writer", "Record"})
 	// every module's ValidateGenesis returns the verdict of its genesis validator
 	checkValidateGenesisPropagates(p, r, kp, []string{"x/aol", "x/did", "x/pnft", "x/burn"})
 	// one keeper (hence one exporting/importing module) per custom store
